@@ -330,6 +330,7 @@ func instrumentTree(root, dst string, points bool) (*instrResult, error) {
 			}
 		}
 		before := in.nextID
+		goBefore := res.GoStmts
 		if points {
 			for _, d := range f.Decls {
 				switch x := d.(type) {
@@ -349,7 +350,7 @@ func instrumentTree(root, dst string, points bool) (*instrResult, error) {
 				}
 			}
 		}
-		needRT := in.nextID > before || res.GoStmts > 0
+		needRT := in.nextID > before || res.GoStmts > goBefore
 		if needRT {
 			// add the runtime import
 			spec := &ast.ImportSpec{Name: ast.NewIdent("vsim__"), Path: &ast.BasicLit{Kind: token.STRING, Value: strconv.Quote(modPath + "/verifsim/rt")}}
